@@ -1969,6 +1969,19 @@ pub(crate) mod convert {
             deps: &mut Vec<UnitSectionOffset>,
             expression: read::Expression<R>,
         ) -> ConvertResult<()> {
+            self.add_nested_expression_refs(deps, expression, 0)
+        }
+
+        fn add_nested_expression_refs(
+            &mut self,
+            deps: &mut Vec<UnitSectionOffset>,
+            expression: read::Expression<R>,
+            depth: usize,
+        ) -> ConvertResult<()> {
+            // The conversion step will return an error for this.
+            if depth > crate::write::op::convert::MAX_ENTRY_VALUE_DEPTH {
+                return Ok(());
+            }
             let mut ops = expression.operations(self.read_unit.encoding());
             // Ignore parsing errors. They can be handled in the conversion step.
             while let Ok(Some(op)) = ops.next() {
@@ -2011,7 +2024,11 @@ pub(crate) mod convert {
                         deps.push(offset);
                     }
                     read::Operation::EntryValue { expression } => {
-                        self.add_expression_refs(deps, read::Expression(expression))?;
+                        self.add_nested_expression_refs(
+                            deps,
+                            read::Expression(expression),
+                            depth + 1,
+                        )?;
                     }
                     _ => {}
                 }
